@@ -859,11 +859,23 @@ def explore_ties(case, paths, path_goals, opts, rng, res, uses_rng):
                 pins.append((sc.sub(vn, sc.const(round(val, 3) + 0.5)), "<"))
             else:
                 pins.append((sc.sub(vn, sc.const(val)), "=="))
-        st, pt, _ = lw.find_model(tie_pc + pins, timeout_ms=min(opts.timeout_ms, 5000))
+        # ... and a *generic* one: every other strict comparison of the path holds with a margin, so that the two points
+        # displaced to either side of the tie (margin/10) lie in the two pieces that actually meet there, not beyond a
+        # neighbouring kink
+        st, margin = "unknown", None
+        for margin in (0.05, 0.005, 0.0005):
+            mc = sc.const(margin)
+            wide = [((sc.sub(x, mc), r) if r == ">" else (sc.add(x, mc), r)) if (r in (">", "<") and not _all_hyper(x)) else (x, r)
+                    for x, r in tie_pc]
+            st, pt, _ = lw.find_model(wide + pins, timeout_ms=min(opts.timeout_ms, 5000))
+            if st != "sat":
+                st, pt, _ = lw.find_model(wide, timeout_ms=min(opts.timeout_ms, 5000))
+            if st == "sat":
+                break
         if st != "sat":
-            st, pt, _ = lw.find_model(tie_pc, timeout_ms=min(opts.timeout_ms, 5000))
-        if st != "sat":
+            res["tie_skipped"] = res.get("tie_skipped", 0) + 1
             continue
+        disp = margin / 10.0
         model = dict(pr.model)
         model.update(pt)
         if sc.evalf(d, model, {}) != 0.0:
@@ -890,8 +902,8 @@ def explore_ties(case, paths, path_goals, opts, rng, res, uses_rng):
         plus = dict(model)
         minus = dict(model)
         for v, c in direction.items():
-            plus[v] = model[v] + 1e-4 * c / norm
-            minus[v] = model[v] - 1e-4 * c / norm
+            plus[v] = model[v] + disp * c / norm
+            minus[v] = model[v] - disp * c / norm
         ia, ib = _path_at(paths, plus), _path_at(paths, minus)
         if ia is None or ib is None or ia not in path_goals or ib not in path_goals:
             continue
@@ -931,7 +943,7 @@ def explore_ties(case, paths, path_goals, opts, rng, res, uses_rng):
             res["inconclusive"].append("tie: the gradient is another valid subgradient (lambda=%.3f); not proved on the whole tie set" % lam)
             continue
         cand = {"label": "subgradient at a tie", "kind": "tie", "point": _clean(model),
-                "direction": {v: c / norm for v, c in direction.items()},
+                "direction": {v: c / norm for v, c in direction.items()}, "eps": disp,
                 "detail": "at a tie of N%d the gradient is outside the segment between the gradients of the two adjacent "
                           "smooth pieces (distance %.4g): code=%s piece+=%s piece-=%s" % (
                               d.id, r, [round(x, 4) for x in G[:6]], [round(x, 4) for x in E1[:6]], [round(x, 4) for x in E2[:6]])}
@@ -959,11 +971,12 @@ def replay_tie(case, cand, uses_rng=False):
             G += g
             labels += ["grad(%s)[%d]" % (label, i) for i in range(len(g))]
     sides = []
+    eps = float(cand.get("eps", 1e-3))       # displacement to either side: inside the margin the tie point keeps from other kinks
     for sgn in (+1, -1):
         pt = dict(x0)
         for v, c in dirn.items():
-            pt[v] = x0[v] + sgn * 1e-3 * c
-        b2, fd, e = fd_gradients(case, pt, uses_rng, 1e-6)
+            pt[v] = x0[v] + sgn * eps * c
+        b2, fd, e = fd_gradients(case, pt, uses_rng, eps * 1e-3)
         if e or fd is None:
             return False, "finite differences failed: %s" % e
         E_ = []
